@@ -37,6 +37,8 @@ type vRecSpec struct {
 	StartNTP        time.Time
 	PayloadSize     int
 	SnapshotOpen    bool // copy the segment files before the recorder is closed (= content at a crash)
+	AudioLag        time.Duration // the audio track trails the video by this much (skewed tracks)
+	BasePTS         time.Duration // timestamps start here instead of 0 (long-running publishers)
 }
 
 type vRecording struct {
@@ -90,8 +92,9 @@ func vRecord(t testing.TB, pathFormat string, spec vRecSpec) *vRecording {
 	audioPTS := int64(0)
 	ai := 0
 	for f := 0; f < spec.Frames; f++ {
-		pts90 := int64(f) * 90000 / int64(spec.FPS)
-		ntp := spec.StartNTP.Add(time.Duration(pts90) * time.Second / 90000)
+		rel90 := int64(f) * 90000 / int64(spec.FPS)
+		pts90 := rel90 + int64(spec.BasePTS/time.Second)*90000
+		ntp := spec.StartNTP.Add(time.Duration(rel90) * time.Second / 90000)
 		if spec.Video {
 			var au unit.PayloadH264
 			if spec.GOP <= 1 || f%spec.GOP == 0 {
@@ -104,8 +107,8 @@ func vRecord(t testing.TB, pathFormat string, spec vRecSpec) *vRecording {
 		if spec.Audio {
 			am := medias[len(medias)-1]
 			// audio frames of 1024 samples up to the current video time
-			for audioPTS*90000/44100 <= pts90 {
-				sub.WriteUnit(am, am.Formats[0], &unit.Unit{PTS: audioPTS, NTP: spec.StartNTP.Add(time.Duration(audioPTS) * time.Second / 44100), Payload: unit.PayloadMPEG4Audio{body(0x21, 16, ai)}})
+			for audioPTS*90000/44100 <= rel90-int64(spec.AudioLag/time.Millisecond)*90 {
+				sub.WriteUnit(am, am.Formats[0], &unit.Unit{PTS: audioPTS + int64(spec.BasePTS/time.Second)*44100, NTP: spec.StartNTP.Add(time.Duration(audioPTS) * time.Second / 44100), Payload: unit.PayloadMPEG4Audio{body(0x21, 16, ai)}})
 				audioPTS += 1024
 				ai++
 			}
